@@ -33,7 +33,7 @@ def specs_for(ctx):
                           "sim": {"theta": rng.uniform(0, 2 * math.pi), "scale": 10 ** rng.uniform(-2, 2), "offset_sizes": rng.uniform(0, 2),
                                   "extent": 10.0, "reflect": rng.random() < 0.3},
                           "build": {"limit": "inf", "fit": "dlite"}, "solve": {"method": "default"}, "pressure": True,
-                          "ids": {"offset": rng.choice([0, 3, 40]), "stride": rng.choice([1, 2]), "shuffle": rng.random() < 0.7},
+                          "ids": {"offset": rng.choice([0, 3, 40]), "stride": rng.choice([1, 2]), "shuffle": rng.random() < 0.7, "vperm": rng.random() < 0.5},
                           "group": {"flips": {str(c): rng.random() < 0.5 for c in range(ncell)},
                                     "shifts": {str(c): rng.randrange(4) for c in range(ncell)}}})
     for i in range(ctx.pick(40, 600)):
@@ -44,7 +44,7 @@ def specs_for(ctx):
                               "extent": 1.0, "reflect": rng.random() < 0.3},
                       "build": {"limit": "inf", "fit": rng.choice(["dlite", "taubinSVD"])}, "solve": {"method": "default"},
                       "pressure": True, "resample": rng.choice([None, None, None, 4]) if k >= 4 else None,
-                      "ids": {"offset": rng.choice([0, 3, 40]), "stride": rng.choice([1, 2]), "shuffle": rng.random() < 0.7},
+                      "ids": {"offset": rng.choice([0, 3, 40]), "stride": rng.choice([1, 2]), "shuffle": rng.random() < 0.7, "vperm": rng.random() < 0.5},
                       "require_conditioned": True})
     return specs, ninst
 
